@@ -172,7 +172,8 @@ def _pathloss_strategy(tier):
                      d=draw(dists),
                      form=draw(forms_gen if model in (
                          "general", "freespace", "3gpp1") else forms_any),
-                     int_scalars=draw(bools), rmw=draw(bools))
+                     int_scalars=draw(bools), rmw=draw(bools),
+                     plot=draw(bools) and draw(bools))
             if model == "metis":
                 s["omit_kw"] = draw(bools)
                 n = len(s["d"])
@@ -282,6 +283,15 @@ def _initial(P, model, init):
 _ATTR = {"n": "n", "fc": "fc", "hbs": "hbs", "hms": "hms",
          "area": "area_type", "policy": "handle_small_distances_bool"}
 OFFERS_INVERSE = ("general", "freespace", "3gpp1")
+
+
+class _FakeAxes(object):
+    """what plot_deterministic_path_loss_in_dB needs of matplotlib axes"""
+    def __init__(self):
+        self.calls = []
+
+    def plot(self, *a, **k):
+        self.calls.append(a)
 
 
 def _rel(a, b):
@@ -615,6 +625,22 @@ def _check_pathloss(case, ctx):
                     setattr(obj, attr, got)
             if step.get("rmw"):
                 ctx.label("read_modify_write")
+            if step.get("plot"):
+                # the deterministic loss is plotted on the caller's axes (a
+                # stand-in object): this must not change the model
+                A0, B0 = _coeffs(model, p, 0)
+                dpl = np.array([10.0 ** (-B0 / A0 + 1.0),
+                                10.0 ** (-B0 / A0 + 2.0)])
+                if np.all((dpl > 1e-300) & (dpl < 1e300)) and not (
+                        model == "hata" and p["area"] == "large city"
+                        and p["fc"] == 300.0):
+                    ax = _FakeAxes()
+                    obj.plot_deterministic_path_loss_in_dB(dpl, ax)
+                    ctx.label("plotted_on_callers_axes")
+                    if len(ax.calls) != 1 or np.shape(ax.calls[0][1]) != (2,):
+                        raise Violation("plot_call", "the caller's axes "
+                                        "received %r" % (ax.calls,),
+                                        dict(model=model))
             if model == "hata" and p["area"] == "large city" and \
                     p["fc"] == 300.0:
                 ctx.label("tie_excluded_fc300")   # docs: '<300' / '>300'
